@@ -30,7 +30,7 @@ CHECKS = {
              "raise ValueError from zip(strict=True)); origin equality = dataclass equality; model tied by correspondence.",
         design="5/C02"),
     "C05": dict(
-        technique="Lean 4 proof: implementation-shaped stack/deque/queue loops = recursive pre/post/level-order spec (induction on fuel/weight) + differential correspondence model vs real dfs/bfs/gather",
+        technique="Lean 4 proof: implementation-shaped stack/deque/queue loops = recursive pre/post/level-order spec (induction on fuel/weight) + differential correspondence model vs real dfs/bfs/gather; `dfs`, `bfs`, `gather` are REGENERATED from node.py on every run (py2lean_v: explicit stack / deque loops with fuel) and the model is proved equal to them (GenBridgeTraverse.dfs_gen_eq, bfs_gen_eq, gather_gen_eq; optional obligation)",
         text="Theorems (for every tree, every prune/filter, no size bound): dfsImpl = pre-order spec, bottom-up = post-order spec, "
              "bfsImpl = level-by-level spec, gather = filtered pre-order; for all three orders: position soundness, start node never yielded, same positions "
              "(permutations of each other for every prune/filter), filter = post-filtering of the unfiltered stream, a pruned position is offered to the filter and nothing below it is yielded, "
@@ -63,7 +63,7 @@ CHECKS = {
              "does not re-prove, the evidence says so and the correspondence carries that function); the lark grammar is re-modelled by hand.",
         design="5/C07"),
     "C03": dict(
-        technique="Lean 4 proof: registry state machine (id assignment, detach, replace, duplicate, _deserialize, weak-value gc) preserves the invariant by induction over operation histories, for an arbitrary digest function + op-by-op differential correspondence with the real NODE_REGISTRY",
+        technique="Lean 4 proof: registry state machine (id assignment, detach, replace, duplicate, _deserialize, weak-value gc) preserves the invariant by induction over operation histories, for an arbitrary digest function + op-by-op differential correspondence with the real NODE_REGISTRY; `_get_next_unique_id`, `get`, `get_any`, `detach_self`, `detach` are REGENERATED from node.py on every run (py2lean_r) and the model is proved equal to them (GenBridgeRegistry.*_eq_gen; optional obligation)",
         text="Theorems (any history, any digest function incl. colliding ones): registry keys pairwise distinct, lookup under k returns a node whose id is k, "
              "detached nodes are never returned, after every operation only live nodes are registered (inv_step, inv_run, regLive_run); every live, "
              "not-detached node is registered under its own id (liveRegistered_run) — for as_obj under the decidable hypothesis that no forced "
@@ -179,7 +179,7 @@ CHECKS = {
         note="Full proof for the node operations; transformers: frame proved up to the first commit, the multi-commit cases are known findings (known_findings.json: C19 frame|texec…, frame|tvisit…) with Lean witnesses. Trusted as C18.",
         design="5/C18"),
     "C20": dict(
-        technique="Lean 4 proof: legacy dfs/bfs/gather loops simulate the C05 loops (start node offered like any position), legacy xpath match = `sat` via the C07 reversal theorem, calculate_xpath spells chains + differential correspondence on legacy trees",
+        technique="Lean 4 proof: legacy dfs/bfs/gather loops simulate the C05 loops (start node offered like any position), legacy xpath match = `sat` via the C07 reversal theorem, calculate_xpath spells chains + differential correspondence on legacy trees; the legacy `_match_node_xpath` is REGENERATED from legacy/match/xpath.py on every run and bridged to the heap-level matcher and to `sat` (GenBridgeLX.lmatchH_eq_gen, legacy_gen_eq_sat; optional obligation)",
         text="Theorems: ldfs/lbfs/lgather = [start offered to filter/prune] ++ C05 spec (skip_self: exactly the C05 spec), legacy match = documented semantics along the parent chain (all index digits), "
              "token-level parse/render for the legacy transformer, calculate_xpath assigns exactly the chain spellings. Character-level lexer modelled and exercised, not proved.",
         note="Trusted: C18 invariant (parent/field/index agree with storage) on attached trees; lark re-modelled; tied by correspondence.",
